@@ -227,6 +227,43 @@ Theorem any_holders_unique : forall h i j hi hj,
 Proof. exact ProofsAny2.any_holders_unique. Qed.
 Print Assumptions any_holders_unique.
 
+(* ---- 12b. Optional: the payload's comparison operators see only the key of a stored value
+        (code = 4 * key + shadow), so == is coarser than identity; assignment nevertheless makes
+        value() the source's stored value itself *)
+Theorem optional_payload_eq_coarser_than_identity :
+  cmp_payload CEq 4 6 = true /\ 4 <> 6 /\ cmp_payload CLt 4 6 = false /\ cmp_payload CGt 4 6 = false.
+Proof. exact Proofs2.cmp_coarser. Qed.
+Print Assumptions optional_payload_eq_coarser_than_identity.
+
+Theorem optional_assign_copy_exact : forall z h i j t x y,
+  fst (spec_run z aempty h) i = Some (t, x) ->
+  fst (spec_run z aempty h) j = Some (t, y) ->
+  r_outs (run (fixed_cfg z) (h ++ [AssignCopy i j; HasValue i; Value i])) =
+  r_outs (run (fixed_cfg z) h) ++ [Some OUnit; Some (OBool (is_some y)); Some (OVal y)].
+Proof. exact Proofs2.assign_copy_exact. Qed.
+Print Assumptions optional_assign_copy_exact.
+
+(* ---- 13. Any: the payload's operator== is only an equivalence (+0.0 == -0.0, {key, shadow} compared
+        on key) and not reflexive (NaN); a copy nevertheless installs the source's stored state
+        itself (Leibniz equal), so a "skip when already equal" shortcut is not a copy *)
+Theorem any_copy_is_exact : forall fixed w i j y x w',
+  a_store w j = Some y ->
+  a_step fixed w (AAssignCopy i j) = AOk x w' \/ a_step fixed w (ACtorCopy i j) = AOk x w' ->
+  exists y', a_store w' i = Some y' /\ abs_any y' = abs_any y /\ (i <> j -> a_store w' j = Some y).
+Proof. exact ProofsAny.any_copy_exact. Qed.
+Print Assumptions any_copy_is_exact.
+
+Theorem any_payload_eq_coarser_than_identity :
+  (peqv 6 0 1 = true /\ 0 <> 1) /\ (peqv 7 17 18 = true /\ 17 <> 18) /\ peqv 6 2 2 = false.
+Proof. exact ProofsAny.peqv_coarser. Qed.
+Print Assumptions any_payload_eq_coarser_than_identity.
+
+Theorem any_skip_if_equal_refuted :
+  exists w i j y w' y', a_store w j = Some y /\ assign_copy_skip_if_equal w i j = AOk AUnit w' /\
+                        a_store w' i = Some y' /\ abs_any y' <> abs_any y.
+Proof. exact ProofsAny.skip_if_equal_refuted. Qed.
+Print Assumptions any_skip_if_equal_refuted.
+
 (* ---- non-vacuity: concrete histories exercising the hypotheses / the interesting paths *)
 Example ex_assign_from_empty :
   r_outs (run (fixed_cfg true) [CtorValue 0 false 5; CtorDefault 1 false; AssignCopy 0 1; HasValue 0; Value 0]) =
@@ -277,3 +314,17 @@ Example ex_any_freed :
   a_next w = 4 /\ map (fun id => (count_new id (a_log w), count_free id (a_log w))) [0; 1; 2; 3; 4] =
   [(1, 1); (1, 1); (1, 1); (1, 1); (0, 0)]%nat.
 Proof. vm_compute. split; reflexivity. Qed.
+
+Example ex_any_signed_zero :
+  ar_outs (a_run true [ACtorValue 0 6 0; ACtorValue 1 6 1; AEq 0 1; AAssignCopy 0 1; AGet 0 6; ACtorValue 2 6 2; AEq 2 2;
+                       AAssignCopy 2 2; AGet 2 6; ACtorValue 3 7 17; AAssignValue 1 7 18; AEq 3 1; AAssignCopy 3 1; AGet 3 7]) =
+  [Some AUnit; Some AUnit; Some (ABool true); Some AUnit; Some (AVal 1); Some AUnit; Some (ABool false);
+   Some AUnit; Some (AVal 2); Some AUnit; Some AUnit; Some (ABool true); Some AUnit; Some (AVal 18)].
+Proof. vm_compute. reflexivity. Qed.
+
+Example ex_optional_shadow :
+  r_outs (run (fixed_cfg false) [CtorValue 0 false 4; CtorValue 1 false 6; Cmp CEq 0 1; Cmp CNe 0 1; Cmp CLe 0 1;
+                                 AssignCopy 0 1; Value 0; CtorValue 2 false 1; Emplace 0 0; Cmp CEq 0 2; AssignMove 0 2; Value 0]) =
+  [Some OUnit; Some OUnit; Some (OBool true); Some (OBool false); Some (OBool true);
+   Some OUnit; Some (OVal (Some 6)); Some OUnit; Some OUnit; Some (OBool true); Some OUnit; Some (OVal (Some 1))].
+Proof. vm_compute. reflexivity. Qed.
